@@ -347,13 +347,32 @@ def run_component(prop, name, args, seed, n, tier):
     shutil.rmtree(d, ignore_errors=True)
     os.makedirs(d)
     hang = os.path.join(d, "hang.json")
-    p = sh([BWH] + name.split() + ["--seed", str(seed), "--n", str(n), "--out", d, "--tier", tier] + args, timeout=7200, check=False,
-           env=dict(ENV, BWH_HANG_FILE=hang))
-    if p.returncode == 3 and os.path.exists(hang):
+    for attempt in (1, 2):
+        if os.path.exists(hang):
+            os.remove(hang)
+        p = sh([BWH] + name.split() + ["--seed", str(seed), "--n", str(n), "--out", d, "--tier", tier] + args, timeout=7200, check=False,
+               env=dict(ENV, BWH_HANG_FILE=hang))
+        if not (p.returncode == 3 and os.path.exists(hang)):
+            break
+        # the watchdog saw a case running for longer than its limit. Before that counts as a hang the case is run once more on
+        # its own, in a fresh process, with five times the limit (a machine that stalls - a paused virtual machine, a burst of
+        # other work - must not look like a hanging blockwatch); only a case that does not finish there either is reported
         h = json.load(open(hang))
-        b = Broken(f"harness component `{name}`: the implementation did not finish case {h['index']} within {h['limit_s']} s", p.stdout[-1000:])
-        b.hang_case = h["case"]
-        raise b
+        single = os.path.join(d, "hang_case.jsonl")
+        with open(single, "w") as f:
+            f.write(json.dumps(h["case"]) + "\n")
+        try:
+            q = subprocess.run([BWH, "replay", single, "--out", os.path.join(d, "hang_replay")], env=ENV, stdout=subprocess.PIPE,
+                               stderr=subprocess.STDOUT, text=True, timeout=5 * h["limit_s"])
+            finished = q.returncode == 0
+        except subprocess.TimeoutExpired:
+            finished = False
+        if not finished or attempt == 2:
+            if finished:
+                raise Broken(f"harness component `{name}`: the watchdog fired twice although the reported cases finish on their own (machine stalls?)", p.stdout[-1000:])
+            b = Broken(f"harness component `{name}`: the implementation did not finish case {h['index']} within {h['limit_s']} s, nor within {5 * h['limit_s']} s on its own", p.stdout[-1000:])
+            b.hang_case = h["case"]
+            raise b
     if p.returncode != 0:
         raise Broken("command failed: " + BWH + " " + name, p.stdout[-4000:])
     run_model(os.path.join(d, "cases.jsonl"), os.path.join(d, "model.jsonl"))
